@@ -32,7 +32,7 @@ def normalise(raw):
             elif not started:
                 continue
             elif ev == "Hello":
-                out.append({"ev": "Hello", "c": e["c"]})
+                out.append({"ev": "Hello", "c": e["c"], "ver": e.get("ver", 4)})
             elif ev == "Register":
                 out.append({"ev": "Register", "c": e["c"], "schema": bool(e["schema"])})
             elif ev == "RegisterAck":
@@ -41,10 +41,10 @@ def normalise(raw):
                 out.append({"ev": "Close", "c": e["c"]})
             elif ev == "BackendEvent":
                 nemit += 1
-                out.append({"ev": "Emit", "id": int(e["id"][1:]), "kind": e["kind"], "h": e["h"]})
+                out.append({"ev": "Emit", "id": int(e["id"][1:]), "kind": e["kind"], "h": e["h"], "v4only": bool(e.get("v4only"))})
             elif ev == "ClientRecv" and e.get("kind") == "event":
                 nrecv += 1
-                out.append({"ev": "Recv", "c": e["c"], "h": e["h"], "stream": e["stream"]})
+                out.append({"ev": "Recv", "c": e["c"], "h": e["h"], "stream": e["stream"], "ver": e.get("ver", 0)})
             elif ev == "Quiet":
                 out.append({"ev": "Quiet"})
     return out, nemit, nrecv
